@@ -498,8 +498,12 @@ def oracle_cells(rng, n):
 
 def _oracle_cells(rng, n):
     for i in range(n):
-        k = rng.choice(['gens', 'gens', 'transformed', 'transformed', 'ortho', 'symmetric', 'reduced'])
-        if k == 'gens':
+        k = rng.choice(['gens', 'gens', 'transformed', 'transformed', 'ortho', 'symmetric', 'reduced', 'special'])
+        if k == 'special':
+            # exact special angles (every multiple of 15 degrees) and rhombohedral axes
+            c, kind = gens.cell(rng, rng.choice(['special', 'special', 'rhombo']))
+            yield c, 'gens:' + kind
+        elif k == 'gens':
             c, kind = gens.cell(rng)
             yield c, 'gens:' + kind
         elif k == 'ortho':
